@@ -228,6 +228,35 @@ func c02LastAsset(tier string) *engine.Scenario {
 	}
 }
 
+// c02UnbondingValidator: undelegations from a validator that x/staking is itself unbonding (jailed, left the active set
+// at t0, so its own UnbondingTime t0+period is EARLIER than the completion time of anything undelegated after t0): the
+// alliance entry matures one full period after ITS request, not when the validator finishes unbonding.
+func c02UnbondingValidator(tier string) *engine.Scenario {
+	cfg := world.DefaultConfig()
+	cfg.FullPipeline = true
+	cfg.Assets[0].TakeRate = "0"
+	seed := []world.Op{opDel(0, 0, "aaa", "1000"), opDel(0, 1, "aaa", "1000"), opDel(1, 0, "aaa", "1000"), opBlock(1),
+		{K: world.KJail, V: 0, Class: ClsEnv}, opBlock(1)}
+	ops := func(n *engine.Node) []world.Op {
+		var ops []world.Op
+		for _, pos := range [][2]int{{0, 0}, {0, 1}, {1, 0}} {
+			ops = append(ops, world.Op{K: world.KUndelegate, D: pos[0], V: pos[1], Denom: "aaa", Amt: "7", Class: ClsUser})
+		}
+		ops = append(ops, world.Op{K: world.KUnjail, V: 0, Class: ClsEnv})
+		for _, dt := range dts(1, 2, 3) {
+			ops = append(ops, world.Op{K: world.KBlock, Dt: int64(dt), Class: ClsBlock})
+		}
+		return ops
+	}
+	return &engine.Scenario{
+		Property: "C02", Name: "c02-unbonding-validator", Cfg: cfg, Stores: world.AllStores,
+		Seeds: [][]world.Op{seed}, ClassNames: classNames, Budgets: tierPick(tier, []int{2, 0, 1, 4, 0}, []int{3, 0, 1, 5, 0}), MaxDepth: tierPick(tier, 6, 8),
+		NewRef: func(w *world.World, root *engine.Node) engine.Ref { return newPendRef() },
+		Ops:    ops, Step: c02Step, SeedStep: true,
+		Required: []string{"payouts"},
+	}
+}
+
 func init() {
 	register(&Property{
 		ID:    "C02",
@@ -236,6 +265,8 @@ func init() {
 			if tier == "thorough" {
 				return []*engine.Scenario{
 					c02Restart(tier),
+					c02UnbondingValidator(tier),
+				c02UnbondingValidator(tier),
 					c02LastAsset(tier),
 					c02Scenario("c02-unbonding3u", 3*U, tier, []int{4, 2, 1, 5, 0}, 10),
 					c02Scenario("c02-unbonding1u", 1*U, tier, []int{4, 2, 1, 4, 0}, 9),
@@ -243,6 +274,7 @@ func init() {
 			}
 			return []*engine.Scenario{
 				c02Restart(tier),
+				c02UnbondingValidator(tier),
 				c02LastAsset(tier),
 				c02Scenario("c02-unbonding3u", 3*U, tier, []int{3, 1, 1, 3, 0}, 6),
 				c02Scenario("c02-unbonding1u", 1*U, tier, []int{2, 1, 1, 3, 0}, 5),
